@@ -20,6 +20,9 @@ macro_rules! dispatch {
             "C02" => $f::<props::c02::C02>($($arg),*),
             "C03" => $f::<props::c03::C03>($($arg),*),
             "C04" => $f::<props::c04::C04>($($arg),*),
+            "C11" => $f::<props::misc::C11>($($arg),*),
+            "C12" => $f::<props::misc::C12>($($arg),*),
+            "C17" => $f::<props::misc::C17>($($arg),*),
             "C05" => $f::<props::simprops::C05>($($arg),*),
             "C06" => $f::<props::simprops::C06>($($arg),*),
             "C07" => $f::<props::simprops::C07>($($arg),*),
